@@ -332,6 +332,7 @@ PROPS["C12"] = dict(
                 9: "second-close-not-reported-closed", 10: "write-after-closewrite-succeeded", 11: "early-application-data-accepted",
                 12: "delivered-bytes-not-a-prefix-of-what-the-peer-wrote", 13: "cancelled-handshake-without-context-error-or-transport-left-open",
                 14: "application-data-sent-after-close", 15: "read-succeeded-after-fatal-error", 16: "write-succeeded-after-fatal-error",
+                17: "delivered-data-that-follows-a-record-answered-with-a-fatal-error",
                 "hang": "hang"},
     assumptions=[
         "calls on one connection are sequential; a record becomes readable as a whole except for the last one before the end of the transport",
